@@ -9,6 +9,7 @@ package profile
 //@   ensures [C07:gen-prefix] hasPrefix(result, "gen_" + hint + "_")
 
 //@ func (g *VarGenerator) GenExpressionVar(quantification Quantification, cardinality *VariableCardinality) Variable
+//@   verify [C01]
 //@   requires g != nil
 //@   requires [C17:counter] deref(g).counter >= 0
 //@   ensures [C07:name-from-list-or-fallback] (old(deref(g).counter) >= 0 && old(deref(g).counter) < len(old(deref(g).vars)) ==> result.Name == old(deref(g).vars)[old(deref(g).counter)]) && (old(deref(g).counter) >= len(old(deref(g).vars)) ==> result.Name == "X" + itoa(old(deref(g).counter)))
